@@ -9,7 +9,7 @@ SPEC = vlib.os.path.join(vlib.VERIF, "specs", "Relay")
 URGENT = {"RecvLoopEnd", "DlTimeout", "Cleanup", "UpClosed", "PackRes", "InitFail", "DlRead"}
 
 BASE = dict(Sess='{"s1"}', Targets='{"a","ip","rej"}', Domains='{"a"}', Rejected='{"rej"}', Unresolvable='{}', ChanCap=2, MaxSend=2, MaxReply=1, MaxTimer=0,
-            SharedPacker="FALSE", RearmGuard="TRUE", Keyed='"addr"', Batch="FALSE", GarbageOn="FALSE", EMIT="", PROPS="")
+            SharedPacker="FALSE", RearmGuard="TRUE", Keyed='"addr"', Batch="FALSE", GarbageOn="FALSE", UpBatch="FALSE", EMIT="", PROPS="")
 
 
 def model(consts, props=True, edges=False, timeout=1800, workers=16):
